@@ -36,7 +36,7 @@ REC = ("rec",)
 D = []
 
 
-def drv(name, fam, src, gen, nd=(1, 0, 2), dt=NUM, exempt=None, func=None, valuation="", slow=False, n=10, needs=None):
+def drv(name, fam, src, gen, nd=(1, 0, 2), dt=NUM, exempt=None, func=None, valuation="", slow=False, n=8, needs=None):
     """needs: inventory key ("alias:qualname", see c15_translate) of a callable that exists only in some trees (a helper
     introduced by a fix: commit); the driver is skipped, with a note, on a tree that does not have it"""
     D.append(dict(name=name, fam=fam, src=src.strip("\n") + "\n", gen=gen, nd=nd, dt=dt, exempt=exempt or {},
